@@ -62,7 +62,7 @@ func runJSONStrRaw(rc *RuleCtx) {
 	w := rc.W
 	for _, fn := range w.Funcs {
 		pr := pkgRel(fn)
-		if pr != "conv/t2j" && pr != "conv/p2j" {
+		if pr != "conv/t2j" && pr != "conv/p2j" && pr != "thrift/annotation" {
 			continue
 		}
 		for _, b := range fn.Blocks {
